@@ -12,7 +12,7 @@ func u32p(v uint32) *uint32 { return &v }
 
 var jsonBodies = []string{`{"a":1}`, `{"a":1,"b":{"c":2}}`, `{"n":null,"s":"x"}`, `{}`, `12`, `"str"`, `[1,2]`, `null`,
 	`{"a":{"z":[1]},"b":true}`, `{"b":{"c":{"d":5}},"q":"w"}`, `{"a":1,"zz":"0123456789012345678901234567890123456789"}`}
-var rawBodies = []string{`raw1`, `{notjson`, `7`, `{"a":1}`, `x y z`}
+var rawBodies = []string{`raw1`, `{notjson`, `7`, `{"a":1}`, `x y z`, ``}
 var xattrVals = []string{`{"rev":"1-a"}`, `{"cas":"x","n":{"m":1}}`, `"s"`, `5`, `[1]`, `true`, `{"b":2,"a":1}`, `{}`}
 var badXattrVals = []string{`{bad`, ``}
 var macroPaths = []string{"_sync.cas", "_sync.n.crc", "u1.cas", "_vv.x", "_sync.rev", "u2.n.deep"}
@@ -319,6 +319,12 @@ func genKv(r *rand.Rand, tier string) kvInput {
 			exists["s1.c2"] = true
 		case x == 3:
 			in.Ops = append(in.Ops, Step{Kind: "expire", Clock: next()})
+		case x >= 4 && x <= 7:
+			st := Step{Kind: "dump", Coll: pick(r, live), Key: pick(r, hot), Start: pick(r, []string{"zero", "current", "current", "stale", "bogus"}), Clock: next()}
+			if r.Intn(3) == 0 {
+				st.Plus = 1
+			}
+			in.Ops = append(in.Ops, st)
 		default:
 			cn := pick(r, live)
 			h := r.Intn(in.Handles)
